@@ -180,5 +180,17 @@ Example c36_ex_flush :
   let s := fst (run KSet [SetX 6; SetB 0; CReplace [2; 3]] (init OLoaded 5 1 [1; 2])) in
   flush_guard s = true /\ snd (flush s) = Done (RDb 6 0 [2; 3]).
 Proof. vm_compute. auto. Qed.
+(* keyed dict: pop / popitem / del d[k] / setdefault / update / clear as FIRST mutation after load *)
+Example c36_ex_dict_first_mutation :
+  let s0 := init OLoaded 5 1 [1; 2] in
+  hist_c (fst (run KDict [CPop 1] s0)) = ([], [2], [1]) /\
+  hist_c (fst (run KDict [CPopD 2] s0)) = ([], [1], [2]) /\
+  hist_c (fst (run KDict [CPopItem] s0)) = ([], [1], [2]) /\
+  hist_c (fst (run KDict [CDelKey 1] s0)) = ([], [2], [1]) /\
+  hist_c (fst (run KDict [CSetDefault 4] s0)) = ([4], [1; 2], []) /\
+  hist_c (fst (run KDict [CUpdate [3; 2]] s0)) = ([3], [2], [1]) /\
+  hist_c (fst (run KDict [CClear] s0)) = ([], [], [1; 2]) /\
+  snd (flush (fst (run KDict [CPop 1] s0))) = Done (RDb 5 1 [2]).
+Proof. vm_compute. repeat split; reflexivity. Qed.
 Example c36_ex_failed_op : snd (step KList (CRem 3) (init OLoaded 5 1 [1; 2])) = Fail ValueError.
 Proof. vm_compute. reflexivity. Qed.
